@@ -1528,6 +1528,9 @@ func addReplace(syntax *FileSyntax, replace *[]*Replace, oldPath, oldVers, newPa
 		if r.Old.Path == oldPath && (oldVers == "" || r.Old.Version == oldVers) {
 			if need {
 				// Found replacement for old; update to use new.
+				// The rewritten line names old exactly, even if it
+				// matched an entry for a specific version.
+				r.Old = old
 				r.New = new
 				syntax.updateLine(r.Syntax, tokens...)
 				need = false
